@@ -35,3 +35,40 @@ PLAN["C12"] = {
     ],
     "scope_note": "loop-free methods: complete over both 32-bit masks and every assignment; implies_lut bounded n<=4; all(n) exhaustive n<=5",
 }
+
+
+_KERNEL_FUNCS = ["table_size", "num_vars_mask", "fill_one", "fill_zero", "not_inplace", "get_bit", "set_bit", "unset_bit",
+                 "flip_inplace", "swap_inplace", "swap_adjacent_inplace", "cofactor0_inplace", "cofactor1_inplace",
+                 "from_cofactors_inplace", "next_inplace", "fill_random"]
+
+_VERUS_ASSUMED = [
+    "Verus proofs are for 64-bit targets (global size_of usize == 8) and require num_vars < 64",
+    "vstd's prophetic iterator model for `for t in table` over &mut [u64]; assume_specification of <&mut [T]>::into_iter, <[T]>::swap, core::cmp::min/max, core::panicking::assert_failed (requires false)",
+]
+
+PLAN["C03"] = {
+    "level": "proof",
+    "technique": "Verus contracts on the real kernels extracted from src/operations.rs each run (all n < 64, all tables, all indices) + Kani contract triples on the real Lut/LutN wrappers per size and index with an independent per-assignment oracle",
+    "level_text": "flip/swap/cofactor0/1/from_cofactors kernels are proved for every table length and every index by Verus (word-level postconditions; assignment-level ones for flip, cofactors and from_cofactors by machine-checked bridge lemmas); the wrappers of both types are proved per size (LutN 1..12, Lut 1..14) and per index (pair) by fully unwound Kani triples against `g(x) = f(x with bits moved)` evaluated independently, including in-place/copy agreement, operand preservation and the Shannon round trip.",
+    "level_note": "Trusted: Verus/Z3/vstd, Kani/CBMC, rustc, extraction rules of DESIGN 2.3. The assignment-level statement of swap is decided by Kani per size only (the Verus contract of swap is word-level). Kani triples fix size and index per harness (complete for that size/index).",
+    "verus_units": ["kernels"],
+    "kani_units": ["spec_ops.rs", "c03_transforms.rs"],
+    "kani_filters": {"quick": ["c03q_"], "thorough": ["c03t_"]},
+    "kani_scope": {r"_s_": "complete(LutN, fixed N and index: all tables, all assignments)", r"_d_": "complete(Lut, fixed n and index: all tables, all assignments)"},
+    "harness_timeout": {"quick": 600, "thorough": 3600},
+    "functions": ["operations::" + f for f in ["flip_inplace", "swap_inplace", "swap_adjacent_inplace", "cofactor0_inplace", "cofactor1_inplace", "from_cofactors_inplace", "table_size", "num_vars_mask"]]
+                 + ["Lut::/StaticLut::{flip, flip_inplace, swap, swap_inplace, swap_adjacent, swap_adjacent_inplace, cofactors, from_cofactors, from_blocks, blocks}"],
+    "twins": {
+        "flip_inplace": {"filters": ["c03q_s_flip", "c03t_s_flip", "c03q_d_flip", "c03t_d_flip"], "complete": True},
+        "swap_inplace": {"filters": ["c03q_s_swap_", "c03t_s_swap_", "c03q_d_swap_", "c03t_d_swap_"], "complete": True},
+        "swap_adjacent_inplace": {"filters": ["c03q_s_swapadj", "c03t_s_swapadj", "c03q_d_swapadj", "c03t_d_swapadj"], "complete": True},
+        "cofactor0_inplace": {"filters": ["c03q_s_cof_", "c03t_s_cof_", "c03q_d_cof_", "c03t_d_cof_"], "complete": True},
+        "cofactor1_inplace": {"filters": ["c03q_s_cof_", "c03t_s_cof_", "c03q_d_cof_", "c03t_d_cof_"], "complete": True},
+        "from_cofactors_inplace": {"filters": ["c03q_s_fromcof", "c03t_s_fromcof", "c03q_d_fromcof", "c03t_d_fromcof"], "complete": True},
+    },
+    "assumptions": _VERUS_ASSUMED + [
+        "Kani triples: one harness per (type, size, index/pair); sizes LutN 1..12 and Lut 1..14 (the property's range); both argument orders of swap covered for n <= 4, one order per unordered pair above (the kernel normalises with max/min, proved by Verus for all orders)",
+        "a failed Verus obligation whose complete Kani twin set passes over the property's whole range is reported as `proof lost`, not as a violation (DESIGN 1)",
+    ],
+    "scope_note": "Verus: unbounded in n (< 64), table length and index. Kani: complete per size/index for LutN 1..12 and Lut 1..14.",
+}
